@@ -534,6 +534,16 @@ func c07Unpack() *core.Space {
 	}
 }
 
+type c07RecA struct {
+	A, B, X, K *c07RecA
+	O          map[string]*c07RecA
+	L          []c07RecA
+}
+
+type c07RecM struct {
+	A, B, O, L map[string]c07RecM
+}
+
 // (g) reference cycles x typed targets: every cyclic (and some diamond-shaped) reference structure
 // read through every kind of reader; a cycle must end in an error (or a value), never in a hang or
 // a stack overflow.
@@ -555,6 +565,10 @@ func c07Cycles() *core.Space {
 		{"a": "${b}", "b": "${a:d}"},
 		{"a": L{"${b}"}, "b": L{"${a}"}},
 		{"a": "${b}", "b": M{"x": "${b}"}},
+		{"a": "${o}", "o": M{"k": "${a}"}},
+		{"a": M{"k": "${a}"}},
+		{"a": "${l}", "l": L{M{"a": "${l}"}}},
+		{"a": M{"b": "${o}"}, "o": M{"a": "${a}"}},
 	}
 	type two struct{ A, B []string }
 	targets := []func() interface{}{
@@ -574,6 +588,9 @@ func c07Cycles() *core.Space {
 		func() interface{} { return &struct{ A []int }{} },
 		func() interface{} { return &struct{ A *[]string }{} },
 		func() interface{} { return &struct{ A struct{ X []string } }{} },
+		// recursive target types: the configuration, not the type, has to end the recursion
+		func() interface{} { return &c07RecA{} },
+		func() interface{} { return &c07RecM{} },
 	}
 	optSets := [][]ucfg.Option{{ucfg.VarExp, ucfg.PathSep(".")}, {ucfg.VarExp}, {ucfg.VarExp, ucfg.PathSep("."), ucfg.ResolveNOOP}}
 	radices := []int{len(cfgs), len(targets), len(optSets)}
